@@ -31,12 +31,29 @@ type Ctx struct {
 	probes    []probe
 	verif     string
 	Extras    map[string]any
+	tableMemo map[*ssa.Global][]*ssa.Function
 }
 
 func NewCtx(p *load.Program, prop, tier string) *Ctx {
 	c := &Ctx{P: p, S: oblig.NewSet(prop), Tier: tier,
 		paths: map[*ssa.Function][]*pathx.Path{}, stats: map[*ssa.Function]pathx.Stats{}, Extras: map[string]any{}}
 	c.funcs = p.SourceFuncs(p.Root)
+	// fields moved into a struct introduced later keep the name the rules know
+	pathx.FieldAlias = map[string][2]string{}
+	for _, r := range p.Renames {
+		if r.Kind != "moved-field" {
+			continue
+		}
+		nw := r.New
+		if i := strings.Index(nw, " ("); i >= 0 {
+			nw = nw[:i]
+		}
+		nw = strings.TrimPrefix(nw, "mqtttest.")
+		old := strings.TrimPrefix(r.Old, "mqtttest.")
+		if j := strings.LastIndex(old, "."); j > 0 {
+			pathx.FieldAlias[nw] = [2]string{old[:j], old[j+1:]}
+		}
+	}
 	// error sentinels: package-level variables of an interface type that only
 	// the package initialiser assigns (loads of them compare like constants)
 	assigned := map[*ssa.Global]bool{}
@@ -345,6 +362,11 @@ func (c *Ctx) staticCallees(f *ssa.Function) []*ssa.Function {
 				if mc, ok := x.Common().Value.(*ssa.MakeClosure); ok {
 					add(mc.Fn.(*ssa.Function))
 				}
+				// a call through a package-level table of function values that
+				// only its initialiser writes: every entry may be the callee
+				for _, g := range c.tableTargets(x.Common()) {
+					add(g)
+				}
 			case *ssa.MakeClosure:
 				add(x.Fn.(*ssa.Function))
 			}
@@ -480,4 +502,63 @@ func (c *Ctx) inRegion(fn *ssa.Function, e *pathx.Event) bool {
 		return true
 	}
 	return load.TopLevel(e.Fn) == load.TopLevel(fn) || c.isNewHelper(e.Fn)
+}
+
+// tableTargets: the functions a call through tbl[i](…) can reach, for a
+// constant package-level table; method-expression wrappers are looked through.
+func (c *Ctx) tableTargets(cc *ssa.CallCommon) []*ssa.Function {
+	if cc.IsInvoke() {
+		return nil
+	}
+	ld, ok := cc.Value.(*ssa.UnOp)
+	if !ok || ld.Op != token.MUL {
+		return nil
+	}
+	ia, ok := ld.X.(*ssa.IndexAddr)
+	if !ok {
+		return nil
+	}
+	g, ok := ia.X.(*ssa.Global)
+	if !ok {
+		return nil
+	}
+	if c.tableMemo == nil {
+		c.tableMemo = map[*ssa.Global][]*ssa.Function{}
+	}
+	if out, ok := c.tableMemo[g]; ok {
+		return out
+	}
+	c.tableMemo[g] = nil
+	tab, ok := c.constTable(g)
+	if !ok {
+		return nil
+	}
+	var out []*ssa.Function
+	for _, v := range tab {
+		var f *ssa.Function
+		switch x := v.(type) {
+		case *ssa.Function:
+			f = x
+		case *ssa.MakeClosure:
+			f, _ = x.Fn.(*ssa.Function)
+		case *ssa.ChangeType:
+			f, _ = x.X.(*ssa.Function)
+		}
+		if f == nil {
+			continue
+		}
+		if f.Synthetic != "" { // wrapper of a method expression: the method it calls
+			for _, b := range f.Blocks {
+				for _, ins := range b.Instrs {
+					if call, ok := ins.(*ssa.Call); ok && call.Call.StaticCallee() != nil {
+						out = append(out, call.Call.StaticCallee())
+					}
+				}
+			}
+			continue
+		}
+		out = append(out, f)
+	}
+	c.tableMemo[g] = out
+	return out
 }
